@@ -107,7 +107,9 @@ def run(ctx):
     # ---- 2. lock-step with relocations
     jobs, trace_jobs = [], {}
     for kind in K:
-        flavours = ["reloc", "inline"]
+        # indexset/shmpool: the cal shm_allocator::PoolAllocator (management data + payload in one block), its
+        # allocations are offsets: bucket index = offset / bucket size
+        flavours = ["reloc", "inline"] + (["shmpool"] if kind == "indexset" else [])
         for fl in flavours:
             for cap in caps_of(kind, quick):
                 # exhaustive enumeration: old block poisoned (0xA5); cover and random walks: poisoned and PROT_NONE
@@ -128,7 +130,7 @@ def run(ctx):
                               common + ["--walks", 6 if quick else 60, "--steps", 24, "--handoff-file", hf]), {"salt": 300}))
                 tf = ctx.path("traces", f"{kind}-{fl}-{cap}.ndjson")
                 walks, steps = (2, 60) if quick else (3, 150)
-                o = common + ["--walks", walks, "--steps", steps, "--trace-out", tf] + (["--exclude", "insert_at"] if kind == "slotmap" else [])
+                o = common + ["--walks", walks, "--steps", steps, "--trace-out", tf]
                 jobs.append(((automata[kind], kind, fl, cap, "random", o), {"salt": 9}))
                 trace_jobs.setdefault(kind, []).append((tf, walks))
     t0 = ctx.elapsed()
